@@ -13,7 +13,7 @@ from mc import isa, kernel
 PROP = 'C13'
 
 INDENTS = ['', '  ', '\t', '        ']
-COMMENTS = ['', ' # c', '# c', '  # addi x1, x1, 1 (not code)', ' #', '  # next element:', " # K = 5, 'x' (y) %hi"]      # comment texts that look like a label / constant / operands
+COMMENTS = ['', ' # c', '# c', '  # addi x1, x1, 1 (not code)', ' #', '  # next element:', " # K = 5, 'x' (y) %hi", "#'lbl' is hot", " #'", "  # it's", ' # ctrl \x00 \x0c chars']      # comment texts that look like a label / constant / operands
 FRONTS = ['', '\n', '# comment\n', '   \n\t# c\n\n', '# Tables:\n  # string x\n']
 SEPS = [', ', ' ', ',', ' , ', '\t', ',\t', '  ']
 
@@ -48,6 +48,8 @@ LINES = {
     'pack':   ('pack', [('t', '<B'), ('i', 200)], None),
     'packh':  ('pack', [('t', '>h'), ('i', -2)], None),
     'align':  ('align', [('i', 4)], None),
+    'charlit': ('addi', [('r', 8), ('r', 0), ('t', "'A'")], None),
+    'chardb': ('db', [('t', "'#'")], None),
     'ecall':  ('ecall', [], None),
     'nop':    ('nop', [], None),
 }
